@@ -226,15 +226,15 @@ var ErrTimeout = errors.New("verif transport: i/o timeout (no datagram arrived w
 
 // Exchange is the record of one Send.
 type Exchange struct {
-	Req       []byte
-	Rx        *ref.Rx // nil if the request never reached the BMC
-	Answer    string
-	Returned  []byte // datagram handed to the library (nil: timeout)
+	Req         []byte
+	Rx          *ref.Rx // nil if the request never reached the BMC
+	Answer      string
+	Returned    []byte // datagram handed to the library (nil: timeout)
 	ReturnedTag string // logical identity of the datagram consumed
-	Err       error
-	Op        int
-	Attempt   int
-	CtxDone   bool // Send was entered with an expired context
+	Err         error
+	Op          int
+	Attempt     int
+	CtxDone     bool // Send was entered with an expired context
 }
 
 // Datagram is a queued datagram with a logical identity.
@@ -304,7 +304,7 @@ type rootKeyT struct{}
 var RootKey = rootKeyT{}
 
 func (t *Transport) Address() net.Addr { return &net.UDPAddr{IP: net.IPv4(127, 0, 0, 1), Port: 623} }
-func (t *Transport) Close() error     { t.Closed = true; return nil }
+func (t *Transport) Close() error      { t.Closed = true; return nil }
 
 // BeginOp marks the start of a new caller-level operation.
 func (t *Transport) BeginOp() { t.Op++; t.Attempt = 0 }
